@@ -225,6 +225,27 @@ func init() {
 			a, b := e.sliceSeq(st, args[0].(*SliceV)), e.sliceSeq(st, args[1].(*SliceV))
 			return Scalar{T: e.nameQuant(st, e.seqEq(a, b)), Typ: boolTyp}
 		},
+		"bytes.Compare": func(e *Exec, st *State, f *ssa.Function, args []Value, pos token.Pos) Value {
+			c := e.C
+			a, b := e.sliceSeq(st, args[0].(*SliceV)), e.sliceSeq(st, args[1].(*SliceV))
+			r := c.Fresh("cmp", smt.BV(64))
+			z := bv64(c, 0)
+			lex := func(x, y *SeqV) *smt.Term {
+				k := c.BoundVar("k", smt.BV(64))
+				j := c.BoundVar("j", smt.BV(64))
+				prefix := c.Forall([]*smt.Term{j}, c.Implies(c.And(c.BVSle(z, j), c.BVSlt(j, k)), c.Eq(x.Read(j), y.Read(j))))
+				body := c.And(c.BVSle(z, k), c.BVSle(k, x.Len), c.BVSle(k, y.Len), prefix,
+					c.Or(c.And(c.BVSlt(k, x.Len), c.BVSlt(k, y.Len), c.BVUlt(x.Read(k), y.Read(k))),
+						c.And(c.Eq(k, x.Len), c.BVSlt(k, y.Len))))
+				return c.Exists([]*smt.Term{k}, body)
+			}
+			e.addAxioms(
+				c.Or(c.Eq(r, z), c.Eq(r, bv64(c, 1)), c.Eq(r, bv64(c, -1))),
+				c.Eq(c.Eq(r, z), e.seqEq(a, b)),
+				c.Eq(c.Eq(r, bv64(c, -1)), lex(a, b)),
+				c.Eq(c.Eq(r, bv64(c, 1)), lex(b, a)))
+			return Scalar{T: r, Typ: intTyp}
+		},
 		"encoding/binary.littleEndian.Uint16":    leGet(16),
 		"encoding/binary.littleEndian.Uint32":    leGet(32),
 		"encoding/binary.littleEndian.Uint64":    leGet(64),
